@@ -12,6 +12,31 @@ from sigma.exceptions import SigmaSecurityError
 PYSIGMA_ALLOW_VARS_EXECUTION_ENV = "PYSIGMA_ALLOW_VARS_EXECUTION"
 
 
+class TemplateSandbox(SandboxedEnvironment):
+    """Sandbox for templates that are part of a processing pipeline definition.
+
+    Templates get the live rule and pipeline objects to read data from them. They must not be able
+    to call code of the library itself: the loaders (e.g. ``ProcessingPipeline.from_dict``) take the
+    security opt-ins (*allow_external_sources*, *allow_template_vars*) as arguments, so a template
+    could otherwise grant them to itself.
+    """
+
+    def is_safe_callable(self, obj: Any) -> bool:
+        for candidate in (obj, getattr(obj, "__func__", None), type(obj)):
+            module = getattr(candidate, "__module__", None)
+            if isinstance(module, str) and (module == "sigma" or module.startswith("sigma.")):
+                return False
+        return super().is_safe_callable(obj)
+
+    def call(__self, __context: Any, __obj: Any, *args: Any, **kwargs: Any) -> Any:  # noqa: N805
+        if not __self.is_safe_callable(__obj):
+            raise SigmaSecurityError(
+                f"Calling {__obj!r} from a template is not allowed: templates can read rule and "
+                "pipeline data but not call pySigma code."
+            )
+        return super().call(__context, __obj, *args, **kwargs)
+
+
 @dataclass
 class TemplateBase:
     """Base class for Jinja template postprocessors and finalizers.
@@ -47,12 +72,10 @@ class TemplateBase:
 
     def __post_init__(self) -> None:
         if self.path is None:
-            env = SandboxedEnvironment(autoescape=self.autoescape)
+            env = TemplateSandbox(autoescape=self.autoescape)
             self.j2template = env.from_string(self.template)
         else:
-            env = SandboxedEnvironment(
-                autoescape=self.autoescape, loader=FileSystemLoader(self.path)
-            )
+            env = TemplateSandbox(autoescape=self.autoescape, loader=FileSystemLoader(self.path))
             self.j2template = env.get_template(self.template)
 
         # Load custom variables/functions from Python file if provided
